@@ -1,6 +1,7 @@
 import H4.VData
 import H4.Format
 import H4.Gen.Fn.Vio
+import H4.VsfldEnc
 import H4.Gen.Fn.Vio3
 import H4.Gen.Vs
 import H4.Driver.Util
@@ -70,6 +71,31 @@ def pack (v : H4.Format.VH) (model : List UInt8) : String :=
   else s!" GEN={toHex (toBytes (s.buf.take (s.size.getD 0 0).toNat))}/{s.size.getD 0 0}/tail={toHex (toBytes (s.buf.drop model.length))}"
 end GenVs
 
+/-! `fdefine` / `setfields`: `VSfdefine` and `VSsetfields` as TRANSLATED from the current C text of vsfld.c (`H4.Gen.Fn.Vsfld`, with
+    `DFKNTsize` of `H4.Gen.Fn.Dfconv`) are run beside the model on the C image of the model's vdata (`H4.VsfldEnc`: the tokens the
+    model's `scanattrs` delivers stand for the C `scanattrs`, which is outside the translated text).  A different answer or vdata, or
+    undefined behaviour / fuel exhaustion in the translated code, is reported as ` GEN=…` (a DIFF against the real library). -/
+namespace GenVsfld
+open H4.VsfldEnc
+
+def fdefine (usym : List SymDef) (name : String) (t order : Nat) (model : Option (List SymDef)) : String :=
+  if name.isEmpty || name.contains ',' then "" else
+  let s := runFdefine (usym.length + 1) usym name t order
+  if s.ub then " GEN=ub" else if s.oof then " GEN=oof" else
+  match model with
+  | some u' =>
+    if s.ret == 0 && s.vs_nusym == (u'.length : Int) && s.vs_usym_name == nameRows u' && s.vs_usym_type == typeCol u' &&
+       s.vs_usym_isize == isizeCol u' && s.vs_usym_order == orderCol u' then "" else s!" GEN=ret{s.ret}/nusym{s.vs_nusym}"
+  | none =>
+    if s.ret == -1 && s.vs_nusym == (usym.length : Int) && s.vs_usym_name == nameRows usym && s.vs_usym_type == typeCol usym &&
+       s.vs_usym_isize == isizeCol usym && s.vs_usym_order == orderCol usym then "" else s!" GEN=ret{s.ret}/nusym{s.vs_nusym}"
+
+def setfields (v : VS) (names : List String) (v' : VS) (ok : Bool) : String :=
+  let s := runSetfields (names.length + v.usym.length + v.w.fields.length + 10) v names
+  if s.ub then " GEN=ub" else if s.oof then " GEN=oof" else
+  if s.ret != (if ok then 0 else -1) then s!" GEN=ret{s.ret}" else
+  if sameVdata v' s then "" else s!" GEN=vdata(n={s.vs_wlist_n},ivsize={s.vs_wlist_ivsize},rlist={s.vs_rlist_n})"
+end GenVsfld
 /-! `unpackvs`: `vunpackvs` as TRANSLATED from the current C text of vio.c (`H4.Gen.Fn.Vio3`) is run on the bytes of the line, on a zeroed
     `*vs` (what `VSIget_vdata_node` hands to `VSPgetinfo`: every pointer NULL, `vsname` / `vsclass` = 65 zero bytes) and a buffer that
     ENDS with the record (`len` cells).  `map_from_old_types` is the generated table `H4.Gen.Vs.MAP_OLD_TYPES` (identity outside 0..15);
@@ -171,8 +197,8 @@ def stepVs (st : VsState) (args : List String) : VsState × String :=
     match parseNat t, parseNat order with
     | some t, some order =>
       match v.fdefine name t order with
-      | some v' => ({ st with v := v' }, "ok")
-      | none => (st, "fail")
+      | some v' => ({ st with v := v' }, "ok" ++ GenVsfld.fdefine v.usym name t order (some v'.usym))
+      | none => (st, "fail" ++ GenVsfld.fdefine v.usym name t order none)
     | _, _ => (st, "bad-op")
   | ["setinterlace", il] =>
     match parseNat il >>= v.setInterlace with
@@ -180,7 +206,10 @@ def stepVs (st : VsState) (args : List String) : VsState × String :=
     | none => (st, "fail")
   | ["setfields", names] =>
     let (v', ok) := v.setFields names
-    ({ st with v := v' }, if ok then "ok" else "fail")
+    let gen := match scanattrs names with
+      | some toks => GenVsfld.setfields v toks v' ok
+      | none => ""
+    ({ st with v := v' }, (if ok then "ok" else "fail") ++ gen)
   | ["info"] =>
     (st, s!"{v.nvertices} {v.interlace} {v.w.ivsize} {intSizeOf v.w} {v.w.n} {showFields v.w}")
   | ["sizeof", names] =>
